@@ -8,6 +8,7 @@
 
 use std::{env, fs, panic, process::ExitCode};
 
+use typst_syntax::ast::AstNode as _;
 use typst_syntax::{ast, parse, Source, SyntaxKind as K, SyntaxNode};
 use typstyle_core::{Config, Typstyle};
 
@@ -842,6 +843,48 @@ fn check_facts(n: &SyntaxNode, parent: Option<&SyntaxNode>, in_raw: bool, is_roo
         for (j, c) in ch.iter().enumerate() {
             if c.kind() == K::ImportItems && c.children().len() == 0 && !ch[..j].iter().any(|p| p.kind() == K::LeftParen) && !(j > 0 && ch[j - 1].kind() == K::Colon) {
                 out.push("PF18: empty ImportItems neither inside parentheses nor directly after the colon".to_string());
+            }
+        }
+    }
+    // PF19: the target of a field access, the callee of a call and the left operand of a binary are the FIRST child
+    // PF20: in a field access only comments and blanks stand between the target and the dot, and behind the dot only the field
+    if matches!(k, K::FieldAccess | K::FuncCall | K::Binary) {
+        let first = ch.first().map(|c| c.kind());
+        let ok = match k {
+            K::FieldAccess => n.cast::<ast::FieldAccess>().is_some_and(|f| ch.first().is_some_and(|c| c.span() == f.target().to_untyped().span())),
+            K::FuncCall => n.cast::<ast::FuncCall>().is_some_and(|f| ch.first().is_some_and(|c| c.span() == f.callee().to_untyped().span())),
+            _ => n.cast::<ast::Binary>().is_some_and(|f| ch.first().is_some_and(|c| c.span() == f.lhs().to_untyped().span())),
+        };
+        if !ok {
+            out.push(format!("PF19: the first child of {k:?} is {first:?}, not its target / callee / left operand"));
+        }
+    }
+    if k == K::FieldAccess {
+        let triv = |c: &&SyntaxNode| matches!(c.kind(), K::Space | K::LineComment | K::BlockComment);
+        let p = ch.iter().skip(1).position(|c| !triv(&c)).map(|i| i + 1);
+        let ok = ch.first().is_some_and(|c| c.is::<ast::Expr>() && !triv(&c) && c.kind() != K::Dot)
+            && p.is_some_and(|p| ch[p].kind() == K::Dot && ch[p + 1..].iter().all(|c| triv(&c) || c.kind() == K::Ident));
+        if !ok {
+            out.push(format!("PF20: FieldAccess with children {:?}", ch.iter().map(|c| c.kind()).collect::<Vec<_>>()));
+        }
+    }
+    if k == K::Binary {
+        // PF21: behind the left operand come comments / blanks, then the operator token(s): `not` only in front of `in`
+        let triv = |c: &&SyntaxNode| matches!(c.kind(), K::Space | K::LineComment | K::BlockComment);
+        let p = ch.iter().skip(1).position(|c| !triv(&c)).map(|i| i + 1);
+        let is_not_in = n.cast::<ast::Binary>().is_some_and(|b| b.op() == ast::BinOp::NotIn);
+        let ok = p.is_some_and(|p| if is_not_in { ch[p].kind() == K::Not } else { ast::BinOp::from_kind(ch[p].kind()).is_some() });
+        if !ok {
+            out.push(format!("PF21: Binary with children {:?}", ch.iter().map(|c| c.kind()).collect::<Vec<_>>()));
+        }
+        if !is_not_in {
+            // every non-trivia child behind the operator is an expression (the right operand)
+            if let Some(p) = p {
+                for c in &ch[p + 1..] {
+                    if !triv(&c) && !c.is::<ast::Expr>() {
+                        out.push(format!("PF21: {:?} behind the operator of a Binary", c.kind()));
+                    }
+                }
             }
         }
     }
